@@ -22,84 +22,6 @@ Rec == ndJsonDeserialize(IOEnv.TRACE)
 VARIABLE l
 vars == <<l>>
 
-(* ----------------------- extended reals and order ---------------------- *)
-IsReal(x) == x.k \in {"int", "rat", "float"}
-IsNaN(x) == x.k = "float" /\ x.f.c = "nan"
-\* -1 / 0 / 1, or 2 when incomparable (a NaN is involved)
-ExtCmp(x, y) ==
-    IF IsNaN(x) \/ IsNaN(y) THEN 2
-    ELSE LET xi == x.k = "float" /\ x.f.c = "inf"
-             yi == y.k = "float" /\ y.f.c = "inf"
-             sx == IF x.f.sg = 1 THEN -1 ELSE 1
-             sy == IF y.f.sg = 1 THEN -1 ELSE 1
-         IN IF xi /\ yi THEN (IF sx = sy THEN 0 ELSE IF sx < sy THEN -1 ELSE 1)
-            ELSE IF xi THEN sx
-            ELSE IF yi THEN -sy
-            ELSE RatCmp(IF x.k = "float" THEN FltToRat(x.f) ELSE AsRat(x),
-                        IF y.k = "float" THEN FltToRat(y.f) ELSE AsRat(y))
-FZero == [k |-> "float", f |-> [c |-> "zero", sg |-> 0, m |-> <<>>, e |-> 0]]
-Re(x) == IF x.k = "complex" THEN [k |-> "float", f |-> x.re] ELSE x
-Im(x) == IF x.k = "complex" THEN [k |-> "float", f |-> x.im] ELSE FZero
-\* complex numbers compare as (re, im) pairs
-NumCmp(x, y) == LET c == ExtCmp(Re(x), Re(y)) IN IF c # 0 THEN c ELSE ExtCmp(Im(x), Im(y))
-NumEq(x, y) == ExtCmp(Re(x), Re(y)) = 0 /\ ExtCmp(Im(x), Im(y)) = 0
-
-CmpOps == {"==", "!=", "<", "<=", ">", ">=", "<=>", ">=<", "min", "max"}
-CmpBin(op, x, y) ==
-    LET c == NumCmp(x, y)
-    IN CASE op = "==" -> Ok(Bool(NumEq(x, y)))
-         [] op = "!=" -> Ok(Bool(~NumEq(x, y)))
-         [] c = 2 -> Throw
-         [] op = "<" -> Ok(Bool(c < 0))
-         [] op = "<=" -> Ok(Bool(c <= 0))
-         [] op = ">" -> Ok(Bool(c > 0))
-         [] op = ">=" -> Ok(Bool(c >= 0))
-         [] op = "<=>" -> Ok(MkInt(IntFromInt(c)))
-         [] op = ">=<" -> Ok(MkInt(IntFromInt(-c)))
-         [] op = "min" -> Ok(IF NumCmp(y, x) < 0 THEN y ELSE x)
-         [] op = "max" -> Ok(IF NumCmp(y, x) > 0 THEN y ELSE x)
-
-(* ----------------------------- dispatch ------------------------------- *)
-Exact(x) == x.k \in {"int", "rat"}
-NumBin(op, x, y) ==
-    IF op \in CmpOps THEN CmpBin(op, x, y)
-    ELSE IF x.k = "int" /\ y.k = "int" THEN IntBin(op, x.i, y.i)
-    ELSE IF Exact(x) /\ Exact(y) THEN
-         (IF op = "^" THEN (IF y.k = "int" THEN RatPowInt(AsRat(x), y.i) ELSE Unspec)
-          ELSE RatBin(op, AsRat(x), AsRat(y)))
-    ELSE Unspec
-
-NumUn(op, x) ==
-    CASE x.k = "int" /\ op \in {"neg", "~", "abs", "signum", "even", "odd", "is_prime"} -> IntUn(op, x.i)
-      [] x.k = "int" /\ op \in {"floor", "ceil", "round", "int", "numerator"} -> Ok(x)
-      [] x.k = "int" /\ op = "denominator" -> Ok(MkInt(IntOne))
-      [] x.k = "int" /\ op = "rational" -> Ok(MkRat(RatFromInt(x.i)))
-      [] x.k = "rat" /\ op = "neg" -> Ok(MkRat(RatNeg(AsRat(x))))
-      [] x.k = "rat" /\ op = "abs" -> Ok(MkRat(RatAbs(AsRat(x))))
-      [] x.k = "rat" /\ op = "signum" -> Ok(MkInt(IntFromInt(x.n.s)))
-      [] x.k = "rat" /\ op = "floor" -> Ok(MkInt(RatFloor(AsRat(x))))
-      [] x.k = "rat" /\ op = "ceil" -> Ok(MkInt(RatCeil(AsRat(x))))
-      [] x.k = "rat" /\ op = "round" -> Ok(MkInt(RatRound(AsRat(x))))
-      [] x.k = "rat" /\ op = "int" -> Ok(MkInt(RatTrunc(AsRat(x))))
-      [] x.k = "rat" /\ op = "numerator" -> Ok(MkInt(RatMk(x.n, x.d).n))
-      [] x.k = "rat" /\ op = "denominator" -> Ok(MkInt(IntMk(1, RatMk(x.n, x.d).d)))
-      [] x.k = "rat" /\ op = "rational" -> Ok(x)
-      [] x.k = "float" /\ FltIsFinite(x.f) /\ op = "floor" -> Ok(MkInt(RatFloor(FltToRat(x.f))))
-      [] x.k = "float" /\ FltIsFinite(x.f) /\ op = "ceil" -> Ok(MkInt(RatCeil(FltToRat(x.f))))
-      [] x.k = "float" /\ FltIsFinite(x.f) /\ op = "round" -> Ok(MkInt(RatRound(FltToRat(x.f))))
-      [] x.k = "float" /\ FltIsFinite(x.f) /\ op = "int" -> Ok(MkInt(RatTrunc(FltToRat(x.f))))
-      [] x.k = "float" /\ FltIsFinite(x.f) /\ op = "rational" -> Ok(MkRat(FltToRat(x.f)))
-      [] x.k = "float" /\ op = "float" -> Ok(x)
-      [] OTHER -> Unspec
-
-(* ----------------------------- comparison ------------------------------ *)
-SameNum(e, o) ==
-    /\ e.k = o.k
-    /\ CASE e.k = "int" -> IntEq(e.i, o.i)
-         [] e.k = "rat" -> RatOk(o) /\ RatCmp(AsRat(e), AsRat(o)) = 0
-         [] e.k = "float" -> e.f = o.f
-         [] e.k = "complex" -> e.re = o.re /\ e.im = o.im
-
 Agrees(exp, ev) ==
     CASE exp.out = "unspec" -> TRUE
       [] exp.out = "throw" -> ev.out = "throw"
@@ -151,6 +73,42 @@ ExtremumOk(ev) ==
                               /\ \A j \in 1..(i - 1) : NumCmp(xs[j], xs[i]) # 0
                IN SameNum(xs[want], ev.r)
 
+
+(* vectors: an operator on vectors acts element-wise, scalars broadcast (la / lb = -1 for a   *)
+(* scalar operand); different lengths are rejected.  items[i] is the outcome of the scalar    *)
+(* application u[i] op v[i] evaluated on its own in the same session (those scalar results    *)
+(* are themselves validated as bin / mixed events).                                           *)
+VecOk(ev) ==
+    IF ev.la >= 0 /\ ev.lb >= 0 /\ ev.la # ev.lb THEN ev.out = "throw"
+    ELSE IF \E i \in 1..Len(ev.items) : ev.items[i].out # "ok" THEN ev.out # "ok" \/ Len(ev.items) = 0
+    ELSE /\ ev.out = "ok" /\ Len(ev.r) = Len(ev.items)
+         /\ \A i \in 1..Len(ev.items) : ev.items[i].r.k # "none" /\ SameNum(ev.items[i].r, ev.r[i])
+
+(* sequences (lists, vectors) compare lexicographically by the element order; 2 = incomparable *)
+RECURSIVE LexCmp(_, _, _)
+LexCmp(xs, ys, i) ==
+    IF i > Len(xs) /\ i > Len(ys) THEN 0
+    ELSE IF i > Len(xs) THEN -1
+    ELSE IF i > Len(ys) THEN 1
+    ELSE LET c == NumCmp(xs[i], ys[i]) IN IF c # 0 THEN c ELSE LexCmp(xs, ys, i + 1)
+SeqCmpExp(op, xs, ys) ==
+    LET c == LexCmp(xs, ys, 1)
+        eq == Len(xs) = Len(ys) /\ \A i \in 1..Len(xs) : NumEq(xs[i], ys[i])
+    IN CASE op = "==" -> Ok(Bool(eq))
+         [] op = "!=" -> Ok(Bool(~eq))
+         [] c = 2 -> Throw
+         [] op = "<" -> Ok(Bool(c < 0))
+         [] op = "<=" -> Ok(Bool(c <= 0))
+         [] op = ">" -> Ok(Bool(c > 0))
+         [] op = ">=" -> Ok(Bool(c >= 0))
+         [] op = "<=>" -> Ok(MkInt(IntFromInt(c)))
+         [] op = ">=<" -> Ok(MkInt(IntFromInt(-c)))
+
+(* chained comparison: conjunction of its links, left to right, stopping at the first false *)
+Chain3Exp(ev) ==
+    LET r1 == CmpBin(ev.op1, ev.a, ev.b)
+    IN IF r1.out # "ok" THEN r1 ELSE IF r1.r.i.s = 0 THEN r1 ELSE CmpBin(ev.op2, ev.b, ev.c)
+
 \* (IF, not a disjunction: in an action TLC explores every disjunct, so `ok \/ Report` would
 \* print the report even when ok holds)
 Chk(ok, ev, exp) == IF ok THEN TRUE ELSE Report(ev, exp)
@@ -163,6 +121,9 @@ Step(ev) ==
       [] ev.ev = "fbin" -> Chk(FBinOk(ev), ev, [out |-> "correctly-rounded"])
       [] ev.ev = "sort" -> Chk(SortOk(ev), ev, [out |-> "stable-sorted-permutation"])
       [] ev.ev = "extremum" -> Chk(ExtremumOk(ev), ev, [out |-> "first-extremal"])
+      [] ev.ev = "vec" -> Chk(VecOk(ev), ev, [out |-> "elementwise-broadcast"])
+      [] ev.ev = "seqcmp" -> LET exp == SeqCmpExp(ev.op, ev.xs, ev.ys) IN Chk(Agrees(exp, ev), ev, exp)
+      [] ev.ev = "chain3" -> LET exp == Chain3Exp(ev) IN Chk(Agrees(exp, ev), ev, exp)
 
 Init == l = 1
 Next == /\ l <= Len(Rec)
